@@ -10,6 +10,32 @@
 #include <string.h>
 #include <sys/stat.h>
 #include <sys/uio.h>
+#ifdef VERIF_NATIVE_CPP
+// native build of the same harness (translation validation / counterexample replay): the three libc allocation functions the code
+// under test calls are redirected to the same stand-ins that ir2c --map selects in the solver build.  All system headers the
+// sources pull in are included first, so that only the calls in the photon sources are affected.
+#include <malloc.h>
+#include <mm_malloc.h>
+#include <immintrin.h>
+#include <memory>
+#include <string>
+#include <vector>
+#include <algorithm>
+#include <utility>
+#include <tuple>
+#include <type_traits>
+#include <cassert>
+#include <cinttypes>
+#include <cerrno>
+#include <cstdarg>
+#include <fcntl.h>
+#include <sys/time.h>
+#include <unistd.h>
+extern "C" { void* verif_c16_malloc(uint64_t n); int verif_c16_memalign(void** out, uint64_t al, uint64_t n); void verif_c16_free(void* p); }
+#define malloc(n) verif_c16_malloc(n)
+#define posix_memalign(p, a, n) verif_c16_memalign(p, a, n)
+#define free(p) verif_c16_free(p)
+#endif
 #include "common/iovector.cpp"       // the adaptor's vtable also holds the vectored variants
 #include "fs/aligned-file.cpp"
 using namespace photon::fs;
@@ -105,7 +131,6 @@ static uint8_t UDATA[CAP]; static uint64_t USIZE;
 struct MemFile : public IFile {
     NOINL ssize_t rd(void* buf, size_t count, off_t offset)
     {
-        note_request(buf, count, offset);
         if ((uint64_t)offset >= USIZE) return 0;
         uint64_t n = USIZE - offset; if (n > count) n = count;
         for (uint64_t i = 0; i < CAP; i++) { if (i >= n) break; ((uint8_t*)buf)[i] = UDATA[offset + i]; }
@@ -113,30 +138,46 @@ struct MemFile : public IFile {
     }
     NOINL ssize_t wr(const void* buf, size_t count, off_t offset)
     {
-        note_request(buf, count, offset); n_wr++;
+        n_wr++;
         for (uint64_t i = 0; i < CAP; i++) { if (i >= count) break; UDATA[offset + i] = ((const uint8_t*)buf)[i]; }
         if (offset + count > USIZE) USIZE = offset + count;
         return count;
     }
-    ssize_t pread(void* buf, size_t count, off_t offset) override { return rd(buf, count, offset); }
-    ssize_t pwrite(const void* buf, size_t count, off_t offset) override { return wr(buf, count, offset); }
-    // vectored requests: one logged request per segment, short as soon as a segment is short
+    ssize_t pread(void* buf, size_t count, off_t offset) override { note_request(buf, count, offset); return rd(buf, count, offset); }
+    ssize_t pwrite(const void* buf, size_t count, off_t offset) override { note_request(buf, count, offset); return wr(buf, count, offset); }
+    // vectored requests: the request as a whole has an aligned offset and total length; with align_memory every segment's address and
+    // length is aligned as well.  Served segment by segment, short as soon as a segment is short.
+    static inline void note_vrequest(const struct iovec* iov, int iovcnt, off_t offset)
+    {
+        n_req++;
+        CHECK(iovcnt >= 0 && iovcnt <= NIOV + 1, "harness bound: underlay sees at most NIOV+1 segments");
+        uint64_t total = 0;
+        for (int i = 0; i < NIOV + 1; i++) {
+            if (i >= iovcnt) break;
+            total += iov[i].iov_len;
+#if AMEM
+            CHECK(((uint64_t)iov[i].iov_base) % ALIGN == 0 && iov[i].iov_len % ALIGN == 0, "underlay vectored request: every segment address and length is a multiple of the alignment (align_memory)");
+#endif
+        }
+        CHECK(offset >= 0 && (uint64_t)offset % ALIGN == 0, "underlay vectored request: offset is a multiple of the alignment");
+        CHECK(total % ALIGN == 0, "underlay vectored request: total length is a multiple of the alignment");
+    }
     ssize_t preadv(const struct iovec* iov, int iovcnt, off_t offset) override
     {
+        note_vrequest(iov, iovcnt, offset);
         ssize_t tot = 0;
         for (int i = 0; i < NIOV + 1; i++) {
             if (i >= iovcnt) break;
             ssize_t r = rd(iov[i].iov_base, iov[i].iov_len, offset + tot); tot += r;
             if ((size_t)r < iov[i].iov_len) break;
         }
-        CHECK(iovcnt <= NIOV + 1, "harness bound: underlay sees at most NIOV+1 segments");
         return tot;
     }
     ssize_t pwritev(const struct iovec* iov, int iovcnt, off_t offset) override
     {
+        note_vrequest(iov, iovcnt, offset);
         ssize_t tot = 0;
         for (int i = 0; i < NIOV + 1; i++) { if (i >= iovcnt) break; tot += wr(iov[i].iov_base, iov[i].iov_len, offset + tot); }
-        CHECK(iovcnt <= NIOV + 1, "harness bound: underlay sees at most NIOV+1 segments");
         return tot;
     }
     // the IFile defaults of these forward to preadv / pwritev; spelled out so that the defaults need not be part of the harness
